@@ -506,6 +506,9 @@ func rC02AppendOrder(w *World, r *Report) {
 	// no sort / reverse helpers in Save
 	for _, c := range allCalls(fn) {
 		n := calleeName(c)
+		if b := calleeBase(c); b == "slices.Contains" || b == "slices.Index" || b == "slices.ContainsFunc" || b == "slices.IndexFunc" {
+			continue // membership tests read, they do not reorder
+		}
 		if strings.HasPrefix(n, "sort.") || strings.HasPrefix(n, "slices.") {
 			ru.Bad("Save/reorder", w.IPos(c), "Save reorders values with "+n)
 		}
